@@ -222,7 +222,9 @@ def case(item):
         rA = A.redo(base + targets, j=1, keep=keep)
         open(B.trace, 'w').close()
         argvB = base + (['-j%d' % j] if forced and j > 1 else []) + targets
-        rB = B.redo(argvB, j=j, keep=keep, shuffle=shuffle, extra_env=({'REDO_VERIF_DELAY': delays} if delays else None))
+        # a third of the scheduled runs under descheduling injection (redo processes stopped and continued at random)
+        stut = (seed if seed % 3 == 0 else None) if isinstance(seed, int) else None
+        rB = B.redo(argvB, j=j, keep=keep, shuffle=shuffle, extra_env=({'REDO_VERIF_DELAY': delays} if delays else None), stutter=stut)
         for r, w in ((rA, 'serial'), (rB, 'scheduled')):
             if r.status == 'timeout':
                 return dict(verdict='inconclusive', why='watchdog without stuck witness (%s twin)' % w, sample=sample)
@@ -297,7 +299,7 @@ def case(item):
         tr = common.read_file(B.trace).decode('utf-8', 'replace')
         obs['wakeups_with_several_ready'] = sum(1 for l in tr.split('\n') if ' woke ready=[' in l and ',' in l.split('ready=[')[1].split(']')[0])
         obs['lock_waits'] = tr.count(' lock_wait ')
-        sets['schedules'] = ['j%d%s%s' % (j, '+shuffle' if shuffle else '', '+delays' if delays else '')]
+        sets['schedules'] = ['j%d%s%s%s' % (j, '+shuffle' if shuffle else '', '+delays' if delays else '', '+stops' if stut is not None else '')]
         sets['graph_kinds'] = [kind]
         sets['exit'] = ['%s' % rA.rc]
         shared_requests = sum(1 for n in exB if sum(1 for m in p.targets if n in p.curdeps(m)) >= 2)
@@ -316,7 +318,7 @@ def case(item):
 
 RULE = ('twin replay: the same generated program and the same serial pre-history (builds, source edits, removals, a failing flag) are '
         'replayed in two sandboxes; then one command (redo-ifchange or redo, one or several targets) runs at -j1 in the first and at '
-        '-j{2,3,4,8,16}, optionally shuffled, with seeded script durations and delay hooks (between child exit and recording, after locking, '
+        '-j{2,3,4,8,16}, optionally shuffled, a third of them with redo processes stopped and continued at random, with seeded script durations and delay hooks (between child exit and recording, after locking, '
         'before the blocking lock wait) in the second. Graphs: sharing-rich (leaves with up to 8 dependents, shared checksummed and always '
         'targets, two layers), deep chains with checksummed links and several consumers, fans of 20-60 default-rule leaves under overlapping '
         'groups, random programs. Oracles: no target has more than one S record in the scheduled run (nor in the serial one); exit status '
